@@ -213,8 +213,9 @@ var InterestingStrings = []string{
 type Group int
 
 const (
-	GroupOutline    Group = iota // fonts that vary outlines, hints, metrics: all decisions
-	GroupDictionary              // fonts that vary strings, numbers, encodings, dates: global decisions only
+	GroupOutline    Group = iota // one glyph (every outline x hints x metrics) and the composite fonts: all decisions
+	GroupMulti                   // two and three glyphs: interactions between glyphs (subr numbering, order)
+	GroupDictionary              // fonts that vary strings, numbers, encodings, dates: no per-command decisions
 )
 
 // Item is one entry of a font list.
@@ -249,14 +250,14 @@ func C06Fonts() []Item {
 	for i, o1 := range sub {
 		for j, o2 := range sub {
 			h1, h2 := (i+j)%NumHintConfigs, (i+2*j+1)%NumHintConfigs
-			add(GroupOutline, NewFont(fmt.Sprintf("B:%s+%s", OutlineName[o1], OutlineName[o2]),
+			add(GroupMulti, NewFont(fmt.Sprintf("B:%s+%s", OutlineName[o1], OutlineName[o2]),
 				notdefBox(), NewGlyph("A", o1, h1, (i+j)%4), NewGlyph("B", o2, h2, (i*j+1)%4)))
 		}
 	}
 	// C: three glyphs.
 	for o := 0; o < NumOutlines; o++ {
 		o2, o3 := (o+5)%NumOutlines, (o+9)%NumOutlines
-		add(GroupOutline, NewFont(fmt.Sprintf("C:%s+%s+%s", OutlineName[o], OutlineName[o2], OutlineName[o3]),
+		add(GroupMulti, NewFont(fmt.Sprintf("C:%s+%s+%s", OutlineName[o], OutlineName[o2], OutlineName[o3]),
 			notdef(), NewGlyph("A", o, o%NumHintConfigs, o%4), NewGlyph("B", o2, (o+3)%NumHintConfigs, (o+1)%4), NewGlyph("space", o3, 0, 4+o%2)))
 	}
 	// F: accented composites (Type 1 book seac restrictions, DESIGN.md section 10).
